@@ -1,19 +1,21 @@
-"""Translator A for C15: what pydoctor's value colouriser sees of operator precedences and spellings NOW.
+"""Translator A for C15: what pydoctor's value colouriser does NOW with operator precedences, operator spellings and
+string escaping -- extracted from BEHAVIOUR of the live code (PYTHONPATH=/repo), not from the shape of its source, so that
+renaming locals, early returns, lookup tables, helper functions and the like do not matter:
 
-Read from the live modules (PYTHONPATH=/repo):
-  * astor.op_util.get_op_precedence(cls()) for every ast.unaryop / ast.operator / ast.boolop subclass, exactly as
-    _pyval_repr._OperatorDelimiter calls it; astor.op_util.Precedence.highest and .Comma (the two constants used)
-  * the operator spellings: the if/elif chains of PyvalColorizer._colorize_ast_unary_op / _binary_op / _bool_op are read
-    from the source with `ast` -- `isinstance(pyval.op, ast.X)` -> `self._output('sym', None, state)`
-  * the character table of _str_escape's inner enc(): `c == 'x'` -> replacement string
-  * the numbers the parenthesis rule adds (the literal in every `parent_precedence += k` of _OperatorDelimiter.__init__)
-    are NOT translated (control flow is modelled by hand in Model/ExprPrint.v and tied by the correspondence check)
+  * precedences: astor.op_util.get_op_precedence(cls()) for every ast.unaryop / ast.operator / ast.boolop subclass (the
+    function _OperatorDelimiter consults), astor.op_util.Precedence.highest and .Comma; that these two constants are the
+    ones in force is probed: as a list element every operator is parenthesised, as a dict value none is
+  * operator spellings: the real colouriser is run on  <op> a ,  a <op> b ,  a <boolop> b  built directly as ast nodes;
+    the text between / before the operand links is the symbol it writes for that operator class
+  * the character table of _str_escape: _str_escape(chr(c)) for EVERY code point that is not a surrogate; the table is
+    the set of code points it changes.  That _str_escape treats a string character by character (and falls back to
+    backslashreplace when a lone surrogate is present) is probed on a fixed set of mixed strings
+  * the parenthesis arithmetic of _OperatorDelimiter is NOT translated (control flow is modelled by hand in
+    Model/ExprPrint.v and tied by the correspondence check)
 
-Fail-closed: any unrecognised shape raises Unrecognised.  Output: Gen/TablesC15.v (definitions only)."""
+Fail-closed: any probe whose outcome does not have the expected form raises Unrecognised.  Output: Gen/TablesC15.v."""
 from __future__ import annotations
 import ast
-import inspect
-import textwrap
 from typing import Any, Dict, List, Tuple
 
 UOPS = ['USub', 'UAdd', 'Not', 'Invert']
@@ -34,111 +36,111 @@ def coq_text(s: str) -> str:
     return '[' + '; '.join(str(ord(c)) for c in s) + ']'
 
 
-def op_chain(func: ast.FunctionDef, opvar: str) -> Dict[str, str]:
-    """Collects {ast class name: symbol} from the if/elif chain `isinstance(<opvar>.op, ast.X)` -> self._output('sym', None, state)."""
-    found: Dict[str, str] = {}
+def name(s: str) -> ast.Name:
+    return ast.Name(id=s, ctx=ast.Load())
 
-    def is_test(t: ast.AST) -> str:
-        need(isinstance(t, ast.Call) and isinstance(t.func, ast.Name) and t.func.id == 'isinstance' and len(t.args) == 2,
-             'operator test is not isinstance(..): ' + ast.dump(t))
-        a0, a1 = t.args
-        need(isinstance(a0, ast.Attribute) and a0.attr == 'op' and isinstance(a0.value, ast.Name) and a0.value.id == opvar,
-             'operator test does not look at %s.op' % opvar)
-        need(isinstance(a1, ast.Attribute) and isinstance(a1.value, ast.Name) and a1.value.id == 'ast',
-             'operator test second argument is not ast.X')
-        return a1.attr
 
-    def sym_of(body: List[ast.stmt]) -> str:
-        need(len(body) == 1 and isinstance(body[0], ast.Expr) and isinstance(body[0].value, ast.Call),
-             'operator branch is not a single call')
-        c = body[0].value
-        need(isinstance(c.func, ast.Attribute) and c.func.attr == '_output' and len(c.args) == 3 and not c.keywords,
-             'operator branch is not self._output(sym, None, state)')
-        need(isinstance(c.args[0], ast.Constant) and isinstance(c.args[0].value, str), 'operator symbol is not a literal')
-        need(isinstance(c.args[1], ast.Constant) and c.args[1].value is None, 'operator tag is not None')
-        return c.args[0].value
-
-    chains = [n for n in ast.walk(func) if isinstance(n, ast.If) and isinstance(n.test, ast.Call)
-              and isinstance(n.test.func, ast.Name) and n.test.func.id == 'isinstance'
-              and isinstance(n.test.args[0], ast.Attribute) and n.test.args[0].attr == 'op']
-    heads = [c for c in chains if not any(c in other.orelse for other in chains)]
-    need(len(heads) == 1, 'expected exactly one operator if/elif chain in ' + func.name)
-    node: Any = heads[0]
-    while True:
-        name = is_test(node.test)
-        need(name not in found, 'operator tested twice: ' + name)
-        found[name] = sym_of(node.body)
-        if len(node.orelse) == 1 and isinstance(node.orelse[0], ast.If):
-            node = node.orelse[0]
+def shown_nodes(node: ast.AST) -> List[Tuple[str, str]]:
+    """(kind, text) of the result nodes of the real colouriser on a freshly built node, without any limit."""
+    from docutils import nodes
+    from pydoctor.epydoc.markup._pyval_repr import colorize_pyval
+    from pydoctor.epydoc.docutils import obj_reference
+    ast.fix_missing_locations(node)
+    r = colorize_pyval(node, linelen=0, maxlines=0, linebreakok=False)
+    need(r.is_complete, 'probe expression was cut')
+    out = []
+    for n in r.to_node().children:
+        if isinstance(n, obj_reference):
+            out.append(('ref', n.astext()))
+        elif isinstance(n, nodes.Text):
+            out.append(('text', n.astext()))
         else:
-            break
-    return found
-
-
-def escape_table(func: ast.FunctionDef) -> List[Tuple[str, str]]:
-    inner = [n for n in func.body if isinstance(n, ast.FunctionDef) and n.name == 'enc']
-    need(len(inner) == 1, '_str_escape has no inner enc()')
-    enc = inner[0]
-    need(len(enc.body) == 2 and isinstance(enc.body[0], ast.If) and isinstance(enc.body[1], ast.Return), 'enc() body shape')
-    out: List[Tuple[str, str]] = []
-    node: Any = enc.body[0]
-    while True:
-        t = node.test
-        need(isinstance(t, ast.Compare) and len(t.ops) == 1 and isinstance(t.ops[0], ast.Eq) and isinstance(t.left, ast.Name)
-             and t.left.id == 'c' and isinstance(t.comparators[0], ast.Constant) and isinstance(t.comparators[0].value, str)
-             and len(t.comparators[0].value) == 1, 'enc() test is not c == <char>')
-        b = node.body
-        need(len(b) == 1 and isinstance(b[0], ast.Assign) and isinstance(b[0].targets[0], ast.Name) and b[0].targets[0].id == 'c'
-             and isinstance(b[0].value, ast.Constant) and isinstance(b[0].value.value, str), 'enc() branch is not c = <str>')
-        out.append((t.comparators[0].value, b[0].value.value))
-        if len(node.orelse) == 1 and isinstance(node.orelse[0], ast.If):
-            node = node.orelse[0]
-        elif not node.orelse:
-            break
-        else:
-            need(False, 'enc() has an else branch')
-    # the rest of _str_escape: join, try encode utf-8, except -> backslashreplace
-    src = ast.unparse(func)
-    need("''.join(map(enc, s))" in src and "s.encode('utf-8')" in src
-         and "s.encode('utf-8', 'backslashreplace').decode('utf-8')" in src, '_str_escape tail changed')
+            out.append(('other', n.astext()))
     return out
+
+
+def symbol_between(nodes_: List[Tuple[str, str]], left: str, right: str, what: str) -> str:
+    """The text written between the link to `left` (absent for a prefix operator) and the link to `right`."""
+    ns = [n for n in nodes_ if n[1] != '' or n[0] == 'ref']
+    if left:
+        need(len(ns) >= 3 and ns[0] == ('ref', left) and ns[-1] == ('ref', right), what + ': operands not displayed as expected: %r' % (ns,))
+        mid = ns[1:-1]
+    else:
+        need(len(ns) >= 2 and ns[-1] == ('ref', right), what + ': operand not displayed as expected: %r' % (ns,))
+        mid = ns[:-1]
+    need(all(k == 'text' for k, _ in mid), what + ': operator not written as plain text: %r' % (mid,))
+    sym = ''.join(t for _, t in mid)
+    need(sym != '' and '(' not in sym and ')' not in sym and '\n' not in sym, what + ': odd operator text %r' % (sym,))
+    return sym
+
+
+def text_of(node: ast.AST) -> str:
+    return ''.join(t for _, t in shown_nodes(node))
+
+
+def escape_table() -> List[Tuple[str, str]]:
+    from pydoctor.epydoc.markup._pyval_repr import _str_escape
+    table: List[Tuple[str, str]] = []
+    for cp in range(0x110000):
+        if 0xD800 <= cp <= 0xDFFF:
+            continue
+        c = chr(cp)
+        r = _str_escape(c)
+        need(isinstance(r, str), '_str_escape does not return str')
+        if r != c:
+            table.append((c, r))
+    need(len(table) <= 64, '_str_escape changes %d characters: not a small escape table' % len(table))
+    enc = dict(table)
+    # character by character, and the lone-surrogate fallback
+    probes = ["", "it's", "a\\b\n\t\r\f\v\0z", "x'y\"z", "café \U0001f600  ", "'" * 5, "\\n", "ab" * 50]
+    for s in probes + [p + "\ud800" + p for p in probes] + ["\udfff", "𐀀"]:
+        per_char = ''.join(enc.get(c, c) for c in s)
+        want = per_char if not any(0xD800 <= ord(c) <= 0xDFFF for c in s) else \
+            ''.join('\\u%04x' % ord(c) if 0xD800 <= ord(c) <= 0xDFFF else c for c in per_char)
+        need(_str_escape(s) == want, '_str_escape is not the character-by-character map (+ backslashreplace of lone surrogates) '
+                                     'on %r' % (s,))
+    return sorted(table, key=lambda kv: ord(kv[0]))
 
 
 def generate() -> Dict[str, str]:
     import astor.op_util as ou
-    from pydoctor.epydoc.markup import _pyval_repr as R
 
     need(set(c.__name__ for c in ast.unaryop.__subclasses__()) == set(UOPS), 'set of ast.unaryop classes changed')
     need(set(c.__name__ for c in ast.operator.__subclasses__()) == set(BOPS), 'set of ast.operator classes changed')
     need(set(c.__name__ for c in ast.boolop.__subclasses__()) == set(BOOLOPS), 'set of ast.boolop classes changed')
 
-    def prec(name: str) -> int:
-        p = ou.get_op_precedence(getattr(ast, name)())
-        need(isinstance(p, int) and 0 <= p < 10000, 'precedence of %s is not a small int' % name)
+    def prec(n: str) -> int:
+        p = ou.get_op_precedence(getattr(ast, n)())
+        need(isinstance(p, int) and 0 <= p < 10000, 'precedence of %s is not a small int' % n)
         return p
 
     highest = ou.Precedence.highest
     comma = ou.Precedence.Comma
     need(isinstance(highest, int) and isinstance(comma, int), 'Precedence constants')
 
-    src = textwrap.dedent(inspect.getsource(R.PyvalColorizer))
-    cls = ast.parse(src).body[0]
-    funcs = {n.name: n for n in cls.body if isinstance(n, ast.FunctionDef)}
-    for f in ('_colorize_ast_unary_op', '_colorize_ast_binary_op', '_colorize_ast_bool_op'):
-        need(f in funcs, 'PyvalColorizer.%s missing' % f)
-    usym = op_chain(funcs['_colorize_ast_unary_op'], 'pyval')
-    bsym = op_chain(funcs['_colorize_ast_binary_op'], 'pyval')
-    osym = op_chain(funcs['_colorize_ast_bool_op'], 'pyval')
-    need(set(usym) == set(UOPS), 'unary operators handled: %s' % sorted(usym))
-    need(set(bsym) == set(BOPS), 'binary operators handled: %s' % sorted(bsym))
-    need(set(osym) == set(BOOLOPS), 'boolean operators handled: %s' % sorted(osym))
+    def mk(kind: str, n: str) -> ast.AST:
+        if kind == 'u':
+            return ast.UnaryOp(op=getattr(ast, n)(), operand=name('b'))
+        if kind == 'b':
+            return ast.BinOp(left=name('a'), op=getattr(ast, n)(), right=name('b'))
+        return ast.BoolOp(op=getattr(ast, n)(), values=[name('a'), name('b')])
 
-    esc = escape_table(ast.parse(textwrap.dedent(inspect.getsource(R._str_escape))).body[0])
+    usym = {n: symbol_between(shown_nodes(mk('u', n)), '', 'b', 'unary ' + n) for n in UOPS}
+    bsym = {n: symbol_between(shown_nodes(mk('b', n)), 'a', 'b', 'binary ' + n) for n in BOPS}
+    osym = {n: symbol_between(shown_nodes(mk('o', n)), 'a', 'b', 'boolean ' + n) for n in BOOLOPS}
 
-    # the precedence constants named in the source of the colouriser
-    whole = inspect.getsource(R)
-    need(whole.count('astor.op_util.Precedence.') == 2 and 'astor.op_util.Precedence.highest' in whole
-         and 'astor.op_util.Precedence.Comma' in whole, 'Precedence constants used by _pyval_repr changed')
+    # the two precedence constants in force: every operator is parenthesised as a list element (Precedence.highest is
+    # above every operator) and none as a dict value (Precedence.Comma is below every operator)
+    for kind, names in (('u', UOPS), ('b', BOPS), ('o', BOOLOPS)):
+        for n in names:
+            bare = text_of(mk(kind, n))
+            need(prec(n) < highest and comma <= prec(n), 'precedence of %s outside (Comma, highest)' % n)
+            need(text_of(ast.List(elts=[mk(kind, n)], ctx=ast.Load())) == '[(' + bare + ')]',
+                 '%s is not parenthesised as a list element' % n)
+            need(text_of(ast.Dict(keys=[name('k')], values=[mk(kind, n)])) == '{k: ' + bare + '}',
+                 '%s is parenthesised as a dict value' % n)
+
+    esc = escape_table()
 
     L: List[str] = []
     L.append('From Coq Require Import NArith List.')
@@ -150,8 +152,8 @@ def generate() -> Dict[str, str]:
     L.append('   binary  ' + ' '.join('%d=%s' % (i, n) for i, n in enumerate(BOPS)))
     L.append('   boolean ' + ' '.join('%d=%s' % (i, n) for i, n in enumerate(BOOLOPS)) + ' *)')
 
-    def table(name: str, names: List[str], f: Any, ty: str) -> None:
-        L.append('Definition %s (i : N) : %s :=' % (name, ty))
+    def table(tname: str, names: List[str], f: Any, ty: str) -> None:
+        L.append('Definition %s (i : N) : %s :=' % (tname, ty))
         L.append('  match i with')
         for i, n in enumerate(names):
             L.append('  | %d => %s' % (i, f(n)))
@@ -166,7 +168,7 @@ def generate() -> Dict[str, str]:
     table('uop_text_tab', UOPS, lambda n: coq_text(usym[n]), 'list N')
     table('bop_text_tab', BOPS, lambda n: coq_text(bsym[n]), 'list N')
     table('boolop_text_tab', BOOLOPS, lambda n: coq_text(osym[n]), 'list N')
-    L.append('(* _str_escape.enc : code point -> replacement, in the order of the if/elif chain *)')
+    L.append('(* _str_escape on single characters: code point -> replacement, for every code point it changes *)')
     L.append('Definition str_escape_tab : list (N * list N) := [' +
              '; '.join('(%d, %s)' % (ord(c), coq_text(r)) for c, r in esc) + '].')
     return {'TablesC15.v': '\n'.join(L) + '\n'}
